@@ -1265,6 +1265,8 @@ def inj_reference(cx: Ctx) -> Planted:
             "type:enum-member",
             "type:parent-file",
             "type:undefined-in-import",
+            "type:not-imported-here",
+            "type:nested-unqualified",
             "cap:undefined",
             "cap:later",
             "cap:type",
@@ -1344,6 +1346,29 @@ def inj_reference(cx: Ctx) -> Planted:
             f.items.remove(imp)
             f.items.insert(cx.int(0, top), imp)
         t = TRef(imp.name + "." + cx.type_name(), None)
+    elif variant == "type:not-imported-here":
+        # f imports g, g imports h: h's definitions are `g.h.X` here, never `h.X`
+        imp_g = cx.ensure_import(f)
+        imp_h = cx.ensure_import(imp_g.file)
+        _, top = cx.top_index(m)
+        ii = [i for i, x in enumerate(f.items) if x is imp_g][0]
+        if ii > top:
+            f.items.remove(imp_g)
+            f.items.insert(cx.int(0, top), imp_g)
+        xs = [x for x in imp_h.file.items if isinstance(x, (Alias, Enum, Message))]
+        if any(x.name == imp_h.name for x in f.items) or not xs:
+            t = TRef(cx.type_name(), None)
+            variant = "type:undefined"
+        else:
+            t = TRef(imp_h.name + "." + cx.one(xs).name, None)
+    elif variant == "type:nested-unqualified":
+        # a type nested in another message is visible outside only through a dotted path
+        outer = Message(cx.type_name())
+        inner: Any = Message(cx.type_name()) if cx.coin() else Enum(cx.type_name(), 2, [(cx.member_name(), 0)])
+        outer.items.append(inner)
+        f.items.insert(cx.int(0, top), outer)
+        set_parents(cx.unit)
+        t = TRef(inner.name, None)
     elif variant == "type:later":
         d = _new_top_def(cx, cx.type_name())
         while isinstance(d, Const):
